@@ -121,12 +121,17 @@ LastRes(visits) == IF visits = <<>> THEN "" ELSE visits[Len(visits)].res
 
 Outcome(visits) == [visits |-> visits, result |-> LastRes(visits)]
 
-(* ---- a configuration: [defs, hasB, hasA, b, m, a] - main pipeline spec, optional before / after   *)
-(* pipeline specs (GlobalFilter), all three over the filter definitions `defs`                       *)
+(* ---- a configuration: [defs, db, da, hasB, hasA, b, m, a] - main pipeline spec (filter definitions *)
+(* `defs`, flow `m`), optional before / after pipeline specs of a GlobalFilter (filter definitions   *)
+(* `db` / `da`, flows `b` / `a`).  The three are pipeline specifications of their own: each has its  *)
+(* own filter list - possibly empty (a flow made of END nodes needs no filter), possibly declaring   *)
+(* a name of the main pipeline with another kind - and is valid or not on its own.                   *)
 Used(c, sg)  == CASE sg = "b" -> c.hasB [] sg = "m" -> TRUE [] sg = "a" -> c.hasA
+DefsOf(c, sg) == CASE sg = "b" -> c.db [] sg = "m" -> c.defs [] sg = "a" -> c.da
 Present(c)   == (IF c.hasB THEN <<"b">> ELSE <<>>) \o <<"m">> \o (IF c.hasA THEN <<"a">> ELSE <<>>)
-SegsOf(c)    == [k \in DOMAIN Present(c) |-> [seg |-> Present(c)[k], flow |-> EffFlow(c.defs, c[Present(c)[k]])]]
-SegValidC(rd, c, sg) == ValidSpec(rd, c.defs, c[sg])
+SegsOf(c)    == [k \in DOMAIN Present(c) |->
+                    [seg |-> Present(c)[k], flow |-> EffFlow(DefsOf(c, Present(c)[k]), c[Present(c)[k]])]]
+SegValidC(rd, c, sg) == ValidSpec(rd, DefsOf(c, sg), c[sg])
 MustAcceptC(c, sg)   == \A rd \in Readings : SegValidC(rd, c, sg)
 MustRejectC(c, sg)   == \A rd \in Readings : ~SegValidC(rd, c, sg)
 VerdictC(c, sg)      == IF ~Used(c, sg) THEN "none" ELSE IF MustAcceptC(c, sg) THEN "acc"
